@@ -103,6 +103,45 @@ def xlsGlobalsStream (arms : Arms) : Nat → Bytes → Outcome
     | some (.panic _) => .panic
     | some .outOfFuel => .fuel
 
+/-! ### the whole of `Xls::new` up to the end of the globals loop -/
+
+def workbookName : List Char := "Workbook".toList
+def bookName : List Char := "Book".toList
+def vbaName : List Char := "_VBA_PROJECT_CUR".toList
+
+/-- `cfb.get_stream("Workbook", r).or_else(|_| cfb.get_stream("Book", r))`. (`or_else` retries on *every* error of the
+    first lookup; the model retries from the state before the first lookup, which is exact when the first lookup
+    failed with "not found" — the only case the generator produces — and an approximation when a `Workbook` entry
+    exists but its chain is broken.) -/
+def workbookStream (c : Cfb.CfbSt) (rd : Bytes) : Res Bytes :=
+  match Cfb.getStream c workbookName rd with
+  | .ok (x, _, _) => .ok x
+  | .err _ =>
+    match Cfb.getStream c bookName rd with
+    | .ok (x, _, _) => .ok x
+    | .err e => .err e
+    | .panic e => .panic e
+    | .outOfFuel => .outOfFuel
+  | .panic e => .panic e
+  | .outOfFuel => .outOfFuel
+
+/-- `Xls::new_with_options`: `Cfb::new(..)?`, the VBA project if the container has one (C18's subject: reported as
+    `err "unmodelled:vba"`), the workbook stream, then the globals loop. Everything after the loop (formats, defined
+    names, sheet substreams) can no longer produce `Password` and is `pass` here. -/
+def xlsOpen (arms : Arms) (file : Bytes) : Outcome :=
+  match Cfb.new file file.length with
+  | .ok (c, rd) =>
+    if Cfb.hasDirectory c vbaName then .err "unmodelled:vba"
+    else
+      match workbookStream c rd with
+      | .ok s => xlsGlobalsStream arms (s.length + 1) s
+      | .err e => .err ("cfb:" ++ e)
+      | .panic _ => .panic
+      | .outOfFuel => .fuel
+  | .err e => .err ("cfb:" ++ e)
+  | .panic _ => .panic
+  | .outOfFuel => .fuel
+
 /-! ## ods: `manifest:encryption-data` in `META-INF/manifest.xml` -/
 
 /-- the quick-xml events the loops distinguish (`expand_empty_elements = true`: there is no `Empty` event);
